@@ -18,6 +18,7 @@ impl Sign {
 //@@ INCLUDE lib/ratio_types.rs
 //@@ INCLUDE lib/conv_approx.rs
 //@@ INCLUDE lib/conv_float.rs
+//@@ INCLUDE lib/conv_float_ratio.rs
 //@@ INCLUDE lib/conv_enc.rs
 //@@ INCLUDE lib/conv_sign_float.rs
 //@@ INCLUDE lib/conv_ratio_stubs.rs
